@@ -209,6 +209,32 @@ CLAIMED["C11"] = {
     "machine-checked.",
 }
 
+CLAIMED["C20"] = {
+    "text": "Partial claim (well-formedness + validation), decided "
+    "statically for all inputs: resolver obligations over the samplers, "
+    "proposals, flow models and evidence states -- every self.X read is "
+    "defined somewhere in the MRO / pickled state / assigned from outside, "
+    "every resolvable call of a package callable binds to its signature, "
+    "every self.<typed attr>.X resolves in the receiver's class; plus the "
+    "validation contracts proved under C15/C17 (unknown stopping criteria, "
+    "length mismatch, bad check_criteria, min_samples / min_remove vs nlive "
+    "raise before sampling). 13 resolver obligations FAIL on the pinned "
+    "tree in six option-guarded late paths of the importance sampler "
+    "(train_final_flow, bootstrap, plot_extra_state, redraw_samples, "
+    "add_level_post_sampling): each option is accepted at construction and "
+    "fails only after sampling -- confirmed end to end "
+    "(tools/findings/c20_late_options.py); listed as known findings.",
+    "note": "NOT decided: that every population loop terminates within a "
+    "bounded number of draws (probabilistic), wall-clock bounds, and the "
+    "covering-array behaviour of real runs. Receivers whose class cannot be "
+    "determined generate no obligation (count in the evidence); classes "
+    "with dynamic attribute access or foreign bases (torch.nn.Module, "
+    "ABC-only excluded) are skipped and named in the evidence.",
+    "technique": "contract-based static well-formedness (resolver "
+    "obligations: attribute definedness, call binding, library symbols) "
+    "+ function contracts for option validation",
+}
+
 NA = {
     "C06": "statistical calibration over seeds: no pre/post-condition on a "
     "function expresses a distributional claim and no deductive back end "
